@@ -21,7 +21,8 @@
 (*                  + control links (in and out), when no bias links were merged or cancelled;                       *)
 (*   DepthTwoWays   the modular MaxActivationDepth as transcribed = the largest edge count among the minimum-weight  *)
 (*                  input-output paths (explicit path sets);                                                         *)
-(*   Refusals       RecursiveSteps fails on both solvers and changes nothing.                                        *)
+(*   Refusals       RecursiveSteps fails on both solvers and changes nothing; so does a request for zero steps      *)
+(*                  (standard solver: error; fast solver: (false, nil)).                                              *)
 (* Cases printed: "net" at sealing (static facts), "hist" at the flush (calls, predicted observations, the flushed    *)
 (* state), "suffix" at the end of a suffix (calls, predicted observations of the flushed instance).                  *)
 EXTENDS ModularAct, Json, SequencesExt
@@ -228,15 +229,14 @@ CountsAgree == ph \in {"hist", "suffix", "done"} =>
                     /\ meta.ncs = Len(net.order) + Len(net.ctrl) /\ meta.ncf = meta.ncs
                     /\ meta.plainbias => meta.lcs = meta.lcf
 DepthTwoWays == ph \in {"hist", "suffix", "done"} => meta.depth = meta.depthdef /\ meta.depth <= meta.longest
+Unchanged(i) == i > 1 => /\ log[i].sst = log[i - 1].sst /\ log[i].scon = log[i - 1].scon
+                         /\ log[i].fsig = log[i - 1].fsig /\ log[i].fpre = log[i - 1].fpre
 Refusals == ph \in {"hist", "suffix", "done"} =>
-                \A i \in DOMAIN log : ops[i].op = "rec" =>
-                    /\ log[i].se = "modular" /\ log[i].fe = "modular" /\ ~log[i].fok
-                    /\ (i > 1 => /\ log[i].sst = log[i - 1].sst /\ log[i].scon = log[i - 1].scon
-                                 /\ log[i].fsig = log[i - 1].fsig /\ log[i].fpre = log[i - 1].fpre)
-             /\ \A i \in DOMAIN log : (ops[i].op \in {"fwd", "act"} /\ ops[i].k = 0) =>
-                    /\ log[i].se = "zero" /\ log[i].fe = "" /\ ~log[i].fok
-                    /\ (i > 1 => /\ log[i].sst = log[i - 1].sst /\ log[i].scon = log[i - 1].scon
-                                 /\ log[i].fsig = log[i - 1].fsig /\ log[i].fpre = log[i - 1].fpre)
+                \A i \in DOMAIN log :
+                    /\ ops[i].op = "rec" =>
+                          log[i].se = "modular" /\ log[i].fe = "modular" /\ ~log[i].fok /\ Unchanged(i)
+                    /\ (ops[i].op \in {"fwd", "act"} /\ ops[i].k = 0) =>
+                          log[i].se = "zero" /\ log[i].fe = "" /\ ~log[i].fok /\ Unchanged(i)
 (* ---- what one might expect but the library does NOT do (each is EXPECTED TO FAIL, MC_ModularAct_should_*.cfg; ---- *)
 (* ---- the replayer shows the same on the real code and records it as an observation, never as a violation)   ---- *)
 \* the fast solver settles on the definition also when a control node is fed directly by a sensor
@@ -269,6 +269,7 @@ VecsQ == {<<2, 0 - 1>>, <<0 - 1, 3>>}
 VecsOne == {<<2, 0 - 1>>}
 SchemesLinear  == {<<"linear">>}
 SchemesQuick   == {<<"linear">>, <<"step", "clip", "abs">>}
+SchemesStep    == {<<"step", "abs">>}
 SchemesRec1    == {<<"linear", "clip">>}
 SchemesRec     == {<<"linear", "clip">>, <<"step", "abs">>}
 SchemesThree   == {<<"linear">>, <<"clip", "linear">>, <<"abs", "step", "clip">>}
